@@ -41,6 +41,6 @@ Proof. exact l_reads_pure. Qed.
 Print Assumptions C19_reads_pure.
 
 (* ... so that reopening afterwards observes the same features, relations and id counters *)
-Theorem C19_reads_then_reopen : forall call rs s, fst (step call (reads s rs) OpReopen) = fst (step call s OpReopen).
+Theorem C19_reads_then_reopen : forall call kind rs s, fst (step call kind (reads s rs) OpReopen) = fst (step call kind s OpReopen).
 Proof. exact l_reads_then_reopen. Qed.
 Print Assumptions C19_reads_then_reopen.
